@@ -78,11 +78,20 @@ class CodeGenerator:
 
         results = list(self.generate(fcp, ctx))
 
-        # Two results for one path would silently overwrite each other
-        paths = [Path(r.get("path")) for r in results if r.get("type") == "file"]  # type: ignore
-        duplicates = sorted({str(p) for p in paths if paths.count(p) > 1})
+        # Two different results for one path would silently overwrite each other
+        contents: Dict[Path, Any] = {}
+        duplicates = set()
+        for r in results:
+            if r.get("type") != "file":
+                continue
+            path = Path(r.get("path"))  # type: ignore
+            if path in contents and contents[path] != r.get("contents"):
+                duplicates.add(str(path))
+            contents.setdefault(path, r.get("contents"))
         if duplicates:
-            raise ValueError(f"Generator returned several files for {duplicates}")
+            raise ValueError(
+                f"Generator returned different files for {sorted(duplicates)}"
+            )
 
         for result in results:
             handle_result(result)
